@@ -39,6 +39,8 @@ var c07Templates = []string{
 	`S matches BadRe`,
 	// results that keep hold of what the VM handed to an environment function
 	`Tuple(A, B, N)`, `Tuple(N)`, `[Tuple(1, 2), Tuple(A)]`, `Tuple(Tuple(A, 2), B, S)`, `map(1..3, {Tuple(#, A)})`, `Fast(A, B)`, `FnVar(A, B, N)`,
+	// folded sequences that an environment function changes in place
+	`RevInts((1..6)[2:])`, `RevInts([7, 8, 9, 10][:])`, `RevInts(1..5)[0]`, `RevInts((1..9)[:4])[A % 2]`,
 }
 
 type c07Kept struct {
